@@ -201,6 +201,37 @@ def inputs_intact(chk, repo, rule, where='TidalPy/RadialSolver/solver.pyx'):
                    method='whole-function symbolic execution of cf_radial_solver + GF(p^2) PIT')
 
 
+def _unparse_raise(sig):
+    """the raise statement an exception left the driver through, as text (the key the structural R06.1 rule uses for the same exit)"""
+    import ast as _ast
+    node = getattr(sig, 'node', None)
+    try:
+        return _ast.unparse(node) if node is not None else ''
+    except Exception:
+        return ''
+
+
+def nan_scalars(chk, repo, rule, where='TidalPy/RadialSolver/solver.pyx'):
+    """a NaN frequency / bulk density / planet radius (every isnan() test on the scalars holds), both nondimensionalize settings: whatever the solver does (raise, report failure,
+    or go on), the caller's five arrays hold their original values afterwards"""
+    d = X.Decider(seed=chk.seed + 89, k=2, positive=[X.atom('rho_bulk', 'pos'), X.atom('Gconst', 'pos')])
+    for nondim in (False, True):
+        try:
+            r = SR.run_solver(repo, ('solid', 'solid'), ('tidal',), nondim, extra_kwargs={'__nan_inputs__': True})
+        except AnalysisError as ex:
+            chk.undecide(rule, f'NaN scalar inputs, nondimensionalize={nondim}', f'the run could not be interpreted to its end: {str(ex)[:120]}')
+            continue
+        bad = []
+        for nm, orig in r.inputs.items():
+            for i, ov in enumerate(orig):
+                fv = r.final_arrays[nm][i]
+                if not isinstance(fv, X.Node) or not d.equal(fv, ov):
+                    bad.append(f'{nm}[{i}]'); break
+        chk.ob(rule, f'NaN scalar inputs, nondimensionalize={nondim}: the caller\'s arrays hold their original values on the exit taken ({"raises " + r.raised.text[:40] if r.raised is not None else "returns"})',
+               not bad, f'changed: {bad[:5]}', where,
+               key=(f'{rule}|' + _unparse_raise(r.raised)) if (nondim and bad and r.raised is not None and _unparse_raise(r.raised)) else f'{rule}|nan-scalars|nondim={nondim}', method='whole-function symbolic execution of cf_radial_solver with the isnan() tests holding + GF(p^2) PIT')
+
+
 def run_with_failure(repo, kinds, extra, fail_layer):
     """as run_solver with nondimensionalize=True; the integration of layer `fail_layer` (if any) reports failure"""
     kw = dict(extra)
@@ -440,6 +471,65 @@ def entry_point_arguments(chk, repo, rule, where='TidalPy/RadialSolver/solver.py
         if a.get('integration_method') != code: bad.append(f'integration method code {a.get("integration_method")} for {method!r} (expected {code})')
         chk.ob(rule, f'{lab}: every parameter of the compiled driver receives the like-named argument of the Python entry point (arrays by their first element, per-layer tuples in order, codes for layer type and method)',
                not bad, '; '.join(bad[:4]), ms.where(fw), key=f'{rule}|{lab}', method='interpretation of the entry point with the driver replaced by a recorder')
+
+
+def entry_point_layer_counts(chk, repo, rule, where='TidalPy/RadialSolver/solver.pyx'):
+    """The Python entry point with many layers (values around every constant its guards compare the layer count with, and some large ones): it either raises a Python
+    exception or hands the per-layer data on without touching memory outside a fixed-size (stack) array."""
+    from ..core import interp as I
+    from ..core.interp import Interp, Arr, FuncRef, RaiseSignal
+    import ast as _ast
+    ms = repo.by_path(where)
+    fw = ms.defs.get('radial_solver')
+    if not isinstance(fw, _ast.FunctionDef):
+        raise AnalysisError('radial_solver vanished')
+    rec = {}
+
+    def call_hook(itp, f, args, kwargs, e, fr):
+        nm = f.node.name if isinstance(f, FuncRef) else str(getattr(f, 'name', ''))
+        base = nm.split('.')[-1]
+        if base == 'cf_radial_solver':
+            rec['reached'] = True
+            return Opaque('solution')
+        if base in ('allocate_mem', 'reallocate_mem'):
+            return Arr('heap')
+        if base in ('PyMem_Free', 'free_mem', 'free'):
+            return None
+        return NotImplemented
+
+    def glob_hook(itp, mod, nm):
+        if nm == 'log': return Opaque('log')
+        return None
+    # candidate counts: constants in the entry point and at module level (the limits its guards can refer to), their neighbours, and a few fixed values
+    consts = {c.value for c in _ast.walk(fw) if isinstance(c, _ast.Constant) and isinstance(c.value, int) and not isinstance(c.value, bool) and 2 <= c.value <= 4096}
+    for st in ms.tree.body:
+        if isinstance(st, (_ast.Assign, _ast.AnnAssign)):
+            consts |= {c.value for c in _ast.walk(st) if isinstance(c, _ast.Constant) and isinstance(c.value, int) and not isinstance(c.value, bool) and 2 <= c.value <= 4096}
+    counts = sorted({1, 4, 11, 33, 100} | {v_ for c in consts for v_ in (c - 1, c, c + 1) if 1 <= v_ <= 300})
+    if chk.tier == 'quick':
+        counts = sorted(set(counts[:3]) | {c_ for c_ in counts if c_ in (10, 11, 30, 31, 33, 100)})
+    n = 8
+    for L in counts:
+        arrs = {}
+        for nm in ('radius_array', 'density_array', 'gravity_array', 'bulk_modulus_array', 'complex_shear_modulus_array'):
+            a = Arr(nm, default=(lambda k, nm=nm: X.atom(f'{nm}[{k}]')), shape=(n,)); a.extent = n
+            arrs[nm] = a
+        kw = dict(arrs)
+        kw.update({'frequency': X.atom('frequency', 'pos'), 'planet_bulk_density': X.atom('rho_bulk', 'pos'), 'layer_types': tuple('solid' for _ in range(L)), 'is_static_by_layer': tuple(False for _ in range(L)),
+                   'is_incompressible_by_layer': tuple(False for _ in range(L)), 'upper_radius_by_layer': tuple(X.atom(f'upper_radius{i}', 'pos') for i in range(L))})
+        rec.clear(); I.OOB_LOG.clear()
+        it = Interp(repo, hooks={'call': call_hook, 'global': glob_hook}, max_depth=6)
+        raised = None
+        try:
+            it.call(ms, fw, [], kw)
+        except RaiseSignal as ex:
+            raised = ex.text
+        oob = sorted({(name, ext, k, kind_) for name, ext, k, kind_, node in I.OOB_LOG})
+        I.OOB_LOG.clear()
+        ok = not oob and (raised is not None or rec.get('reached'))
+        why = '; '.join(f'{kind_} of element {k} of {name} (extent {ext})' for name, ext, k, kind_ in oob[:3]) or ('neither raises nor reaches the compiled driver' if not ok else '')
+        chk.ob(rule, f'radial_solver with {L} layers: raises a Python exception or passes the per-layer data on, touching no memory outside a fixed-size array', ok, why, ms.where(fw),
+               key=f'{rule}|layers={L}', method='interpretation of the entry point (fixed-size C arrays carry their extent)')
 
 
 def malformed_structures(chk, repo, rule, where='TidalPy/RadialSolver/solver.pyx'):
